@@ -9,6 +9,8 @@ from vlib import env
 from vlib import faultruns as fr
 from vlib.programs import Built, World, describe, playback_function_for, expected_outputs
 
+from vlib.values import recording_in_domain
+
 PROPERTY = 'C05'
 LEVEL = 'fault_enumeration'
 RULE = ('for each base program (seeded, every decorator feature, single-threaded): the fault-free run, every single placement and sampled pairs of '
@@ -61,6 +63,10 @@ def judge(ctx, res, w, replay_saved=True):
         if have_in < nin:
             ctx.violation('saved recording holds %d input keys for %d distinct executed input calls' % (have_in, nin), w)
         if e in saves and not failed and replay_saved and not md.get(TapeRecorder.INCOMPLETE_RECORDING):
+            ro = res.spy.recordings.get(e[1])
+            if ro is None or not recording_in_domain(getattr(ro, 'recording_data', {}), getattr(ro, 'recording_metadata', {})):
+                ctx.count('recordings_out_of_serializer_domain')     # what the third-party serializer does not restore faithfully is not judged
+                continue
             # replay on unchanged code: same program, same service-level faults, poison world
             rec2 = TapeRecorder(res.box.reader())
             rep = Built(res.live.prog, rec2, World(1, poison=True), faults=fr.service_faults(res.faults), cls_name=res.live.cls.__name__)
